@@ -14,14 +14,19 @@
 // calling Start first thing or (X_VERIF_ENTRY=maybechild) by calling
 // telemetry.MaybeChild first and telemetry.Start later, the documented pattern
 // that cmd/go follows; the sidecar is the same program and so follows the
-// same pattern; the fake go command always uses the MaybeChild pattern.  A depth counter in the environment stops a
+// same pattern; the fake go command always uses the MaybeChild pattern.  The
+// telemetry directory comes from Config.TelemetryDir (cfg), or - no
+// TelemetryDir - from os.UserConfigDir via XDG_CONFIG_HOME (env), or from
+// nowhere (none: HOME and XDG_CONFIG_HOME unset, so
+// that os.UserConfigDir fails and telemetry.Default stays the zero Dir); every
+// process runs in an empty working directory that is watched for writes.  A depth counter in the environment stops a
 // (mutated) recursion after four generations.  All descendants hold the write
 // end of a pipe; the driver waits for EOF on it, so a case is complete when
 // every process it caused has exited.
 //
 // Case kinds
 //
-//	start <entry: start | maybechild> <marker set> <marker> <upload var set> <crash> <upload> <mode read by Dir.Mode>
+//	start <dir source: cfg | env | none> <entry: start | maybechild> <marker set> <marker> <upload var set> <crash> <upload> <mode read by Dir.Mode>
 //	      <local dir reachable> <token: A | P <age ns>> <exit> <returned>
 //	      <n procs> (<S|G> <depth> <marker set> <marker> <upload var>)* <token exists after>
 //	      <token (re)created> <dir changed>
@@ -132,6 +137,7 @@ type tokenSpec struct {
 }
 
 type startCase struct {
+	dirSrc     int  // where the telemetry directory comes from (dirCfg ...)
 	maybeChild bool // the application calls MaybeChild first, Start later
 	markerSet  bool
 	marker     string
@@ -210,17 +216,32 @@ func parseLog(path string) (recs []procRec, returned map[string]bool, ready int)
 	return
 }
 
-func baseEnv(dir, tdir string) []string {
-	return []string{
+const (
+	dirCfg  = 0 // Config.TelemetryDir
+	dirEnv  = 1 // default directory below $XDG_CONFIG_HOME, no TelemetryDir
+	dirNone = 2 // no TelemetryDir, HOME and XDG_CONFIG_HOME unset: os.UserConfigDir fails
+	// (a relative XDG_CONFIG_HOME is rejected by os.UserConfigDir only by newer toolchains; with go1.23
+	// it yields a directory relative to the working directory, which is a known directory)
+)
+
+func baseEnvSrc(dir, tdir string, src int) []string {
+	env := []string{
 		"PATH=" + fakebin + string(os.PathListSeparator) + os.Getenv("PATH"),
-		"HOME=" + filepath.Join(dir, "home"),
-		"XDG_CONFIG_HOME=" + filepath.Join(dir, "home", "cfg"),
 		roleEnv + "=app",
 		logEnv + "=" + filepath.Join(dir, "log"),
 		depthEnv + "=0",
-		tdirEnv + "=" + tdir,
 	}
+	switch src {
+	case dirCfg:
+		env = append(env, "HOME="+filepath.Join(dir, "home"), "XDG_CONFIG_HOME="+filepath.Join(dir, "home", "cfg"), tdirEnv+"="+tdir)
+	case dirEnv:
+		env = append(env, "HOME="+filepath.Join(dir, "home"), "XDG_CONFIG_HOME="+filepath.Join(dir, "home", "cfg"))
+	case dirNone:
+	}
+	return env
 }
+
+func baseEnv(dir, tdir string) []string { return baseEnvSrc(dir, tdir, dirCfg) }
 
 // waitAll: EOF on the done pipe = every descendant has exited
 func waitAll(r *os.File) bool {
@@ -270,10 +291,19 @@ func procFields(recs []procRec) []string {
 func setupDir(dir string, c startCase) (tdir string) {
 	os.MkdirAll(filepath.Join(dir, "home"), 0777)
 	if c.broken {
+		os.MkdirAll(filepath.Join(dir, "cwd"), 0777)
 		os.WriteFile(filepath.Join(dir, "afile"), []byte("x"), 0666)
 		return filepath.Join(dir, "afile", "t")
 	}
-	tdir = filepath.Join(dir, "t")
+	os.MkdirAll(filepath.Join(dir, "cwd"), 0777)
+	switch c.dirSrc {
+	case dirNone:
+		return filepath.Join(dir, "nowhere")
+	case dirEnv:
+		tdir = filepath.Join(dir, "home", "cfg", "go", "telemetry")
+	default:
+		tdir = filepath.Join(dir, "t")
+	}
 	os.MkdirAll(tdir, 0777)
 	if c.modeFile != nil {
 		os.WriteFile(filepath.Join(tdir, "mode"), []byte(*c.modeFile), 0666)
@@ -311,14 +341,16 @@ func runStart(idx int, c startCase) []string {
 	if fi, err := os.Stat(tf); err == nil {
 		tokBefore = fi.ModTime().UnixNano()
 	}
-	before := snapshot(tdir)
+	cwd := filepath.Join(dir, "cwd")
+	before, beforeCwd := snapshot(tdir), snapshot(cwd)
 
 	pr, pw, err := os.Pipe()
 	if err != nil {
 		panic(err)
 	}
 	cmd := exec.Command(self, "** vh_start app **")
-	cmd.Env = baseEnv(dir, tdir)
+	cmd.Env = baseEnvSrc(dir, tdir, c.dirSrc)
+	cmd.Dir = cwd
 	if c.maybeChild {
 		cmd.Env = append(cmd.Env, entryEnv+"=maybechild")
 	}
@@ -349,7 +381,7 @@ func runStart(idx int, c startCase) []string {
 		os.Exit(3)
 	}
 	pr.Close()
-	after := snapshot(tdir)
+	after, afterCwd := snapshot(tdir), snapshot(cwd)
 	recs, returned, _ := parseLog(filepath.Join(dir, "log"))
 
 	tokExists, tokCreated := false, false
@@ -361,11 +393,14 @@ func runStart(idx int, c startCase) []string {
 	if c.maybeChild {
 		entry = "maybechild"
 	}
-	f := []string{"start", entry, B(c.markerSet), HS(c.marker), B(c.uvSet), B(c.crash), B(c.upload), HS(mode), B(!c.broken)}
+	if c.dirSrc == dirNone {
+		mode = "" // there is no directory to read a mode from
+	}
+	f := []string{"start", []string{"cfg", "env", "none"}[c.dirSrc], entry, B(c.markerSet), HS(c.marker), B(c.uvSet), B(c.crash), B(c.upload), HS(mode), B(!c.broken)}
 	f = append(f, tokenFields(c.token)...)
 	f = append(f, I(int64(exit)), B(returned["app/0"]))
 	f = append(f, procFields(recs)...)
-	f = append(f, B(tokExists), B(tokCreated), B(!sameSnap(before, after)))
+	f = append(f, B(tokExists), B(tokCreated), B(!sameSnap(before, after) || !sameSnap(beforeCwd, afterCwd)))
 	return f
 }
 
@@ -497,6 +532,30 @@ func main() {
 			}
 		}
 	}
+	// no telemetry directory at all (os.UserConfigDir fails, no TelemetryDir)
+	for _, mc := range []bool{false, true} {
+		for _, mk := range markers {
+			for _, crash := range []bool{false, true} {
+				for _, upload := range []bool{false, true} {
+					cases = append(cases, startCase{dirSrc: dirNone, maybeChild: mc, markerSet: mk.set, marker: mk.v,
+						crash: crash, upload: upload})
+				}
+			}
+		}
+	}
+	// the default directory below the user configuration directory
+	for _, mk := range []markerSpec{{false, ""}, {true, "1"}} {
+		for _, crash := range []bool{false, true} {
+			for _, upload := range []bool{false, true} {
+				for _, md := range modes {
+					for _, tk := range []tokenSpec{{false, 0}, {true, 25 * time.Hour}} {
+						cases = append(cases, startCase{dirSrc: dirEnv, markerSet: mk.set, marker: mk.v, crash: crash, upload: upload,
+							modeFile: md, token: tk, localPre: rnd.Bool()})
+					}
+				}
+			}
+		}
+	}
 	moreMarkers := []markerSpec{{false, ""}, {true, ""}, {true, "1"}, {true, "2"}, {true, "x"}, {true, "0"}, {true, "11"},
 		{true, " 1"}, {true, "true"}, {true, "3"}}
 	moreModes := []*string{nil, sp("on"), sp("on 2024-01-05"), sp("local"), sp("off"), sp("off 2024-01-05\n"), sp(" off"),
@@ -515,6 +574,13 @@ func main() {
 		}
 		if c.broken { // nothing can exist below a regular file
 			c.token = tokenSpec{}
+		}
+		switch r := rnd.Intn(100); {
+		case r < 12:
+			c.dirSrc, c.broken = dirEnv, false
+		case r < 24:
+			c.dirSrc, c.broken = dirNone, false
+			c.token, c.modeFile, c.localPre, c.debugDir = tokenSpec{}, nil, false, false
 		}
 		cases = append(cases, c)
 	}
@@ -542,6 +608,7 @@ func main() {
 		if c.broken {
 			out.Note("telemetry-dir-unreachable")
 		}
+		out.Note("dir-source-" + []string{"config", "user-config-dir", "none-env-unset"}[c.dirSrc])
 		if c.maybeChild {
 			out.Note("entry-maybechild-then-start")
 		} else {
